@@ -15,6 +15,15 @@
 (*   "content"      everything else: the canonical pointer of exactly      *)
 (*                  (SHA-256, length) of the input, the input stored       *)
 (*                  under that id (C01)                                    *)
+(* With pointer extensions configured (docs/extensions.md) the "content"   *)
+(* branch stores T(input), T being the composition of the extensions'      *)
+(* clean programs in priority order; the pointer names (SHA-256, length)   *)
+(* of T(input) and carries one line ext-<i>-<name> with the SHA-256 of     *)
+(* that extension's input (a pass-through extension may be left out);      *)
+(* smudge undoes T and returns the input.  Extension classes: "rot13"      *)
+(* keeps the length, "gzip" shrinks compressible and grows other content,  *)
+(* "base64" always grows, "rot13+gzip" is a chain of two.  The other two   *)
+(* branches never look at the extensions.                                  *)
 (* A case is: clean(c) under (delivery, front-end, work-tree state), then  *)
 (* smudge of what clean produced; smudge must return c's bytes.  TLC       *)
 (* enumerates the product completely; the harness concretises each case.   *)
@@ -22,10 +31,10 @@
 EXTENDS Integers, Sequences, FiniteSets, TLC, Json, CSV, IOUtils
 
 CONSTANTS Contents,     \* content classes (records, see Filter_MC)
-          Deliveries, FrontEnds, WtStates, Emit
+          Deliveries, FrontEnds, WtStates, Exts, Emit
 
-VARIABLES c, delivery, frontend, wt, phase, out, stored
-vars == <<c, delivery, frontend, wt, phase, out, stored>>
+VARIABLES c, delivery, frontend, wt, ext, phase, out, stored
+vars == <<c, delivery, frontend, wt, ext, phase, out, stored>>
 
 \* a content class is [name, kind, len]; kind "data" | "ptr"; for kind "ptr", wf says
 \* whether the bytes parse as a pointer (C07) — look-alikes that do not parse have wf = FALSE
@@ -34,6 +43,7 @@ Branch(x) == IF x.len = 0 THEN "empty" ELSE IF IsWellFormedPointer(x) THEN "pass
 
 \* combinations that make sense (pruning inside Init, so it also holds for simulation)
 Meaningful(x, d, f, w) ==
+  /\ (ext # "none" => f \in {"oneshot", "process", "gitadd"} /\ d \in {"whole", "split_mid", "pkt1024", "pktmax"} /\ w \in {"none", "same"})
   /\ (f = "gitadd" => d = "whole" /\ w = "same")           \* git owns delivery and the file
   /\ (f = "mergedriver" => d = "whole" /\ w \in {"shorter", "longer"} /\ x.kind = "merge")   \* git merge through `git lfs merge-driver`:
                                                            \* w = how the previous pointer file compares in length with the new one
@@ -44,18 +54,18 @@ Meaningful(x, d, f, w) ==
   /\ (d = "pkt1" => x.len <= 3000)
   /\ (d = "pkt7" => x.len <= 70000)
 
-Init == /\ c \in Contents /\ delivery \in Deliveries /\ frontend \in FrontEnds /\ wt \in WtStates
+Init == /\ c \in Contents /\ delivery \in Deliveries /\ frontend \in FrontEnds /\ wt \in WtStates /\ ext \in Exts
         /\ Meaningful(c, delivery, frontend, wt)
         /\ phase = "start" /\ out = "none" /\ stored = FALSE
 
 Clean == /\ phase = "start" /\ phase' = "cleaned"
-         /\ out' = Branch(c)                    \* depends on c only: not on delivery, frontend, wt
+         /\ out' = Branch(c)                    \* depends on c only: not on delivery, frontend, wt, ext
          /\ stored' = (Branch(c) = "content")
-         /\ UNCHANGED <<c, delivery, frontend, wt>>
+         /\ UNCHANGED <<c, delivery, frontend, wt, ext>>
 
 Smudge == /\ phase = "cleaned" /\ phase' = "smudged"
           /\ out' = "original"                  \* smudging what clean produced yields c's bytes
-          /\ UNCHANGED <<c, delivery, frontend, wt, stored>>
+          /\ UNCHANGED <<c, delivery, frontend, wt, ext, stored>>
 
 Next == Clean \/ Smudge
 Spec == Init /\ [][Next]_vars
@@ -64,6 +74,6 @@ Spec == Init /\ [][Next]_vars
 NoPointerToPointer == (phase # "start" /\ IsWellFormedPointer(c)) => ~stored
 LookAlikeIsContent == (phase # "start" /\ c.kind = "ptr" /\ (~c.wf \/ c.len >= 1024)) => stored
 
-Case == [content |-> c, delivery |-> delivery, frontend |-> frontend, wt |-> wt, branch |-> Branch(c)]
+Case == [content |-> c, delivery |-> delivery, frontend |-> frontend, wt |-> wt, ext |-> ext, branch |-> Branch(c)]
 EmitState == (Emit /\ phase = "smudged") => CSVWrite("%1$s", <<ToJson(Case)>>, IOEnv.OUT)
 =============================================================================
